@@ -42,60 +42,187 @@ def consumedOf (s : St) : List (List Nat) :=
 structure HInv (cap : Nat) (input : List (List Nat)) (s : St) : Prop where
   cap_eq : s.cap = cap
   content : input = consumedOf s ++ s.input
-  ids : (idsOf s).Perm (List.range cap)
+  /-- `lost` = the buffer the reader goroutine still held when it returned (at most one) -/
+  ids : ∃ lost, (idsOf s ++ lost).Perm (List.range cap) ∧ (s.reader ≠ .done → lost = []) ∧
+    lost.length ≤ 1
   closed_iff : s.closed = true ↔ s.reader = .done
   done_input : s.reader = .done → s.input = []
   fileClosed_iff : s.fileClosed = true ↔ s.writer = .done
   wdone : s.writer = .done → s.closed = true ∧ s.queue = []
 
 theorem hinv_init (cap : Nat) (input : List (List Nat)) : HInv cap input (init cap input) := by
-  refine ⟨rfl, ?_, ?_, ?_, ?_, ?_, ?_⟩
+  refine ⟨rfl, ?_, ⟨[], ?_, fun _ => rfl, Nat.zero_le _⟩, ?_, ?_, ?_, ?_⟩
   · simp only [init, consumedOf, pendingW, pendingR, List.map_nil, List.append_nil, List.nil_append]
   · simp only [init, idsOf, held, heldW, List.map_nil, List.append_nil, List.map_map]
-    rw [List.map_congr_left (g := id) (fun _ _ => rfl), List.map_id]
-  · simp only [init]; exact ⟨fun h => by cases h, fun h => by cases h⟩
+    simp only [Function.comp_def, List.map_id']
+    exact List.Perm.refl _
+  · show false = true ↔ RPhase.idle = RPhase.done
+    constructor <;> intro h <;> cases h
   · intro h; cases h
-  · simp only [init]; exact ⟨fun h => by cases h, fun h => by cases h⟩
+  · show false = true ↔ WPhase.idle = WPhase.done
+    constructor <;> intro h <;> cases h
   · intro h; cases h
 
 theorem hinv_step {cap : Nat} {input : List (List Nat)} {s t : St} (h : HInv cap input s)
     (hstep : Step s t) : HInv cap input t := by
-  obtain ⟨hcap, hcont, hids, hcl, hdi, hfc, hwd⟩ := h
-  rw [List.perm_iff_count] at hids
+  obtain ⟨hcap, hcont, ⟨lost, hperm, hlost, hlen⟩, hcl, hdi, hfc, hwd⟩ := h
+  rw [List.perm_iff_count] at hperm
   cases hstep with
   | rTake b rest h1 h2 =>
-    refine ⟨hcap, ?_, ?_, ?_, ?_, hfc, hwd⟩
+    refine ⟨hcap, ?_, ⟨lost, ?_, fun _ => hlost (by rw [h1]; exact fun h => by cases h), hlen⟩,
+      ?_, ?_, hfc, hwd⟩
     · simp only [consumedOf, pendingR, h1] at hcont ⊢
       exact hcont
-    · rw [List.perm_iff_count]; intro i; have := hids i
+    · rw [List.perm_iff_count]; intro i; have := hperm i
       simp only [idsOf, held, h1, h2, List.map_cons, List.count_append, List.count_cons,
         List.count_nil] at this ⊢
       omega
     · simp only [h1, reduceCtorEq] at hcl ⊢; exact hcl
     · intro h; cases h
   | rFill b f more h1 h2 =>
-    refine ⟨hcap, ?_, ?_, ?_, ?_, hfc, hwd⟩
+    refine ⟨hcap, ?_, ⟨lost, ?_, fun _ => hlost (by rw [h1]; exact fun h => by cases h), hlen⟩,
+      ?_, ?_, hfc, hwd⟩
     · simp only [consumedOf, pendingR, h1, h2, List.append_nil] at hcont ⊢
       rw [hcont]; simp only [List.append_assoc, List.cons_append, List.nil_append]
-    · rw [List.perm_iff_count]; intro i; have := hids i
+    · rw [List.perm_iff_count]; intro i; have := hperm i
       simp only [idsOf, held, h1] at this ⊢
       exact this
     · simp only [h1, reduceCtorEq] at hcl ⊢; exact hcl
     · intro h; cases h
   | rEOF b h1 h2 =>
-    refine ⟨hcap, ?_, ?_, ?_, ?_, hfc, ?_⟩
+    have hl : lost = [] := hlost (by rw [h1]; exact fun h => by cases h)
+    subst hl
+    refine ⟨hcap, ?_, ⟨[b.id], ?_, fun h => absurd rfl h, Nat.le_refl _⟩, ?_, ?_, hfc, ?_⟩
     · simp only [consumedOf, pendingR, h1] at hcont ⊢
       exact hcont
-    · rw [List.perm_iff_count]; intro i; have := hids i
-      simp only [idsOf, held, h1] at this ⊢
-      sorry
-    · simp only
+    · rw [List.perm_iff_count]; intro i; have := hperm i
+      simp only [idsOf, held, h1, List.count_append, List.count_cons, List.count_nil] at this ⊢
+      omega
+    · exact ⟨fun _ => rfl, fun _ => rfl⟩
     · intro _; exact h2
     · intro h; exact ⟨rfl, (hwd h).2⟩
-  | rSend b h1 h2 => sorry
-  | wRecv b rest h1 h2 => sorry
-  | wClose h1 h2 h3 => sorry
-  | wWrite b h1 => sorry
-  | wReturn b h1 h2 => sorry
+  | rSend b h1 h2 =>
+    have hwnd : s.writer ≠ .done := by
+      intro h
+      have := hcl.mp (hwd h).1
+      rw [h1] at this; cases this
+    refine ⟨hcap, ?_, ⟨lost, ?_, fun _ => hlost (by rw [h1]; exact fun h => by cases h), hlen⟩,
+      ?_, ?_, hfc, fun h => absurd h hwnd⟩
+    · simp only [consumedOf, pendingR, h1, List.map_append, List.map_cons, List.map_nil,
+        List.append_nil] at hcont ⊢
+      rw [hcont]; simp only [List.append_assoc]
+    · rw [List.perm_iff_count]; intro i; have := hperm i
+      simp only [idsOf, held, h1, List.map_append, List.map_cons, List.map_nil, List.count_append,
+        List.count_cons, List.count_nil] at this ⊢
+      omega
+    · simp only [h1, reduceCtorEq] at hcl ⊢; exact hcl
+    · intro h; cases h
+  | wRecv b rest h1 h2 =>
+    refine ⟨hcap, ?_, ⟨lost, ?_, hlost, hlen⟩, hcl, hdi, ?_, ?_⟩
+    · simp only [consumedOf, pendingW, h1, h2, List.map_cons, List.append_nil] at hcont ⊢
+      rw [hcont]; simp only [List.append_assoc, List.cons_append, List.nil_append]
+    · rw [List.perm_iff_count]; intro i; have := hperm i
+      simp only [idsOf, heldW, h1, h2, List.map_cons, List.count_append, List.count_cons,
+        List.count_nil] at this ⊢
+      omega
+    · simp only [h1, reduceCtorEq] at hfc ⊢; exact hfc
+    · intro h; cases h
+  | wClose h1 h2 h3 =>
+    refine ⟨hcap, ?_, ⟨lost, ?_, hlost, hlen⟩, hcl, hdi, ?_, ?_⟩
+    · simp only [consumedOf, pendingW, h1] at hcont ⊢
+      exact hcont
+    · rw [List.perm_iff_count]; intro i; have := hperm i
+      simp only [idsOf, heldW, h1] at this ⊢
+      exact this
+    · exact ⟨fun _ => rfl, fun _ => rfl⟩
+    · intro _; exact ⟨h3, h2⟩
+  | wWrite b h1 =>
+    refine ⟨hcap, ?_, ⟨lost, ?_, hlost, hlen⟩, hcl, hdi, ?_, ?_⟩
+    · simp only [consumedOf, pendingW, h1, List.append_nil] at hcont ⊢
+      rw [hcont]
+    · rw [List.perm_iff_count]; intro i; have := hperm i
+      simp only [idsOf, heldW, h1] at this ⊢
+      exact this
+    · simp only [h1, reduceCtorEq] at hfc ⊢; exact hfc
+    · intro h; cases h
+  | wReturn b h1 h2 =>
+    refine ⟨hcap, ?_, ⟨lost, ?_, hlost, hlen⟩, hcl, hdi, ?_, ?_⟩
+    · simp only [consumedOf, pendingW, h1, List.append_nil] at hcont ⊢
+      exact hcont
+    · rw [List.perm_iff_count]; intro i; have := hperm i
+      simp only [idsOf, heldW, h1, List.map_append, List.map_cons, List.map_nil, List.count_append,
+        List.count_cons, List.count_nil] at this ⊢
+      omega
+    · simp only [h1, reduceCtorEq] at hfc ⊢; exact hfc
+    · intro h; cases h
+
+theorem hinv_reach {cap : Nat} {input : List (List Nat)} {s : St} (hr : Reach (init cap input) s) :
+    HInv cap input s := by
+  induction hr with
+  | refl => exact hinv_init cap input
+  | step _ hs ih => exact hinv_step ih hs
+
+/-! ## consequences of the invariant -/
+
+theorem HInv.ids_nodup {cap : Nat} {input : List (List Nat)} {s : St} (h : HInv cap input s) :
+    (idsOf s).Nodup := by
+  obtain ⟨lost, hperm, _, _⟩ := h.ids
+  have hn : (idsOf s ++ lost).Nodup := hperm.nodup_iff.mpr List.nodup_range
+  exact (List.nodup_append.mp hn).1
+
+theorem HInv.ids_lt {cap : Nat} {input : List (List Nat)} {s : St} (h : HInv cap input s) :
+    ∀ i ∈ idsOf s, i < cap := by
+  obtain ⟨lost, hperm, _, _⟩ := h.ids
+  intro i hi
+  exact List.mem_range.mp (hperm.mem_iff.mp (List.mem_append_left _ hi))
+
+/-- all `cap` buffers are accounted for, except the one the reader took with it when it returned -/
+theorem HInv.ids_length {cap : Nat} {input : List (List Nat)} {s : St} (h : HInv cap input s) :
+    ∃ k, k ≤ 1 ∧ (s.reader ≠ .done → k = 0) ∧
+      s.spent.length + (held s.reader).length + s.queue.length + (heldW s.writer).length + k = cap := by
+  obtain ⟨lost, hperm, hl, hlen⟩ := h.ids
+  refine ⟨lost.length, hlen, fun hnd => by rw [hl hnd]; rfl, ?_⟩
+  have := hperm.length_eq
+  simp only [idsOf, List.length_append, List.length_map, List.length_range] at this
+  exact this
+
+theorem HInv.ids_perm {cap : Nat} {input : List (List Nat)} {s : St} (h : HInv cap input s)
+    (hnd : s.reader ≠ .done) : (idsOf s).Perm (List.range cap) := by
+  obtain ⟨lost, hperm, hl, _⟩ := h.ids
+  rw [hl hnd, List.append_nil] at hperm
+  exact hperm
+
+/-- the id of a buffer held by the reader occurs nowhere else -/
+theorem HInv.reader_id_unique {cap : Nat} {input : List (List Nat)} {s : St} (h : HInv cap input s)
+    {i : Nat} (hi : i ∈ held s.reader) :
+    i ∉ s.spent.map (·.id) ∧ i ∉ s.queue.map (·.id) ∧ i ∉ heldW s.writer := by
+  have hc := List.nodup_iff_count.mp h.ids_nodup i
+  have h1 : 0 < List.count i (held s.reader) := List.count_pos_iff.mpr hi
+  simp only [idsOf, List.count_append] at hc
+  refine ⟨?_, ?_, ?_⟩ <;> rw [← List.count_eq_zero] <;> omega
+
+/-- the id of a buffer held by the writer occurs nowhere else -/
+theorem HInv.writer_id_unique {cap : Nat} {input : List (List Nat)} {s : St} (h : HInv cap input s)
+    {i : Nat} (hi : i ∈ heldW s.writer) :
+    i ∉ s.spent.map (·.id) ∧ i ∉ s.queue.map (·.id) ∧ i ∉ held s.reader := by
+  have hc := List.nodup_iff_count.mp h.ids_nodup i
+  have h1 : 0 < List.count i (heldW s.writer) := List.count_pos_iff.mpr hi
+  simp only [idsOf, List.count_append] at hc
+  refine ⟨?_, ?_, ?_⟩ <;> rw [← List.count_eq_zero] <;> omega
+
+/-- a queued buffer is not also in the spent channel, and the queue has no duplicates -/
+theorem HInv.queue_spent_disjoint {cap : Nat} {input : List (List Nat)} {s : St}
+    (h : HInv cap input s) :
+    (s.queue.map (·.id)).Nodup ∧ (s.spent.map (·.id)).Nodup ∧
+      ∀ i ∈ s.queue.map (·.id), i ∉ s.spent.map (·.id) := by
+  have hc := List.nodup_iff_count.mp h.ids_nodup
+  simp only [idsOf, List.count_append] at hc
+  refine ⟨List.nodup_iff_count.mpr fun i => ?_, List.nodup_iff_count.mpr fun i => ?_, ?_⟩
+  · have := hc i; omega
+  · have := hc i; omega
+  · intro i hi
+    have h1 : 0 < List.count i (s.queue.map (·.id)) := List.count_pos_iff.mpr hi
+    rw [← List.count_eq_zero]
+    have := hc i; omega
 
 end TR.C18
